@@ -123,6 +123,7 @@ func e3WriteModule(dir string) error {
 func e3Build(dir string, extraArgs ...string) (string, error) {
 	bin := filepath.Join(dir, "e3.test")
 	args := append([]string{"test", "-c", "-vet=off", "-o", bin}, extraArgs...)
+	args = append(args, coverBuildArgs()...)
 	args = append(args, ".")
 	cmd := exec.Command("go", args...)
 	cmd.Dir = dir
@@ -178,6 +179,9 @@ func (w *e3Worker) run(spec e3Spec, runPat string, count int, env map[string]str
 	trace := filepath.Join(filepath.Dir(w.dir), "trace.txt")
 	os.Remove(trace)
 	args := []string{"-test.count", fmt.Sprint(count), "-test.timeout", "60s"}
+	covArgs, covPath := coverRunArg(filepath.Dir(w.dir))
+	args = append(args, covArgs...)
+	defer coverMerge(covPath)
 	if runPat != "" {
 		args = append(args, "-test.run", runPat)
 	}
